@@ -291,6 +291,10 @@ func (x *xl) block(stmts []ast.Stmt, k *cont) ([]string, error) {
 	var lines []string
 	for i, s := range stmts {
 		rest := stmts[i+1:]
+		if x.w.dom && x.declThenAssign(s, rest) {
+			// `var v T` directly followed by `v = e`: the same as `v := e` (v is not nil-able on that account)
+			continue
+		}
 		if c, ok := isPanicStmt(x.p.info, s); ok {
 			b, _, err := x.exprs(c.Args)
 			if err != nil {
